@@ -40,7 +40,7 @@ type topo struct {
 
 func isConn(id string) bool {
 	switch typeOf(id) {
-	case "fwd", "conv", "l2m":
+	case "fwd", "conv", "l2m", "forward":
 		return true
 	}
 	return false
@@ -69,7 +69,7 @@ func genTopo(tp *simkit.Tape, small bool) topo {
 	recvPool := []string{"rcv/1", "rcv/2", "shr/1"}
 	procPool := []string{"proc/1", "proc/2", "ropr/1"}
 	expPool := []string{"exp/1", "exp/2", "mexp/1"}
-	connPool := []string{"fwd/1", "conv/1", "conv/2", "l2m/1"}
+	connPool := []string{"fwd/1", "conv/1", "conv/2", "l2m/1", "forward/1"}
 	useConn := tp.Chance(2, 3)
 	names := "abcde"
 	for i := 0; i < np; i++ {
@@ -237,7 +237,11 @@ func (t *topo) routes(recv, sig string) []delivery {
 				}
 				for _, q := range t.Pipes {
 					if q.Sig == to && contains(q.Recv, e) {
-						walk(q, trail+">"+e+"["+p.Sig+"->"+to+"]")
+						if typeOf(e) == "forward" {
+							walk(q, trail) // the real forward connector leaves no trace on the payload
+						} else {
+							walk(q, trail+">"+e+"["+p.Sig+"->"+to+"]")
+						}
 					}
 				}
 			}
@@ -423,7 +427,7 @@ func runRouting(r *simkit.Run, prop string) {
 				want["exporter:"+x+":"+p.Sig] = 1
 			} else {
 				for _, q := range t.Pipes {
-					if contains(q.Recv, x) && connSupports(typeOf(x), p.Sig, q.Sig) {
+					if contains(q.Recv, x) && connSupports(typeOf(x), p.Sig, q.Sig) && typeOf(x) != "forward" {
 						want[fmt.Sprintf("connector:%s:%s->%s", x, p.Sig, q.Sig)] = 1
 					}
 				}
@@ -771,8 +775,8 @@ func checkLifetime(r *simkit.Run, t *topo, res *lifeResult, failKey, failWhat st
 		}
 		for _, c := range t.consumersOf(k) {
 			ck := c
-			if strings.HasPrefix(c, "receiver:") {
-				continue
+			if strings.HasPrefix(c, "receiver:") || strings.HasPrefix(c, "connector:forward/") {
+				continue // (the real forward connector is not instrumented)
 			}
 			// shared receivers have key receiver:<id>:*
 			cs, cok := pos[ck]["started"]
